@@ -213,6 +213,13 @@ func (e *Encoder) Value(v *av.V) {
 	}
 	switch v.K {
 	case av.Null:
+		if v.EmptyMap && e.choose(2, "empty-map-explicit") == 1 {
+			// an empty map written out: it is a map, and numbered like one
+			e.nrefs++
+			e.W.WriteByte('H')
+			e.W.WriteByte('Z')
+			return
+		}
 		e.W.WriteByte('N')
 	case av.Bool:
 		if v.B {
